@@ -245,7 +245,7 @@ func TestPropRouter(t *testing.T) {
 			amtIn.SetInt64(1)
 		}
 		desc := fmt.Sprintf("in=%s route=%v outs=%v whitelisted=%v", in, ids(ps), outs, whitelisted)
-		mode := rapid.SampledFrom([]string{"exactIn", "exactIn", "exactOut", "exactOut", "splitIn"}).Draw(rt, "mode")
+		mode := rapid.SampledFrom([]string{"exactIn", "exactIn", "exactOut", "exactOut", "splitIn", "splitIn"}).Draw(rt, "mode")
 		switch mode {
 		case "exactIn":
 			var routes []pmtypes.SwapAmountInRoute
@@ -441,11 +441,44 @@ func TestPropRouter(t *testing.T) {
 			var legs []pmtypes.SwapAmountInSplitRoute
 			total := new(big.Int)
 			nl := rapid.IntRange(2, 3).Draw(rt, "legs")
-			for l := 0; l < nl; l++ {
-				lp, lo := w.walk(rt, in, rapid.IntRange(1, 2).Draw(rt, "legHops"))
-				if len(lp) == 0 || lo[len(lo)-1] != out {
+			// all 1- and 2-hop routes from in to out that exist in this world; legs are drawn among them
+			type legRoute struct {
+				ps []pinfo
+				os []string
+			}
+			has := func(p pinfo, d string) bool {
+				for _, x := range p.denoms {
+					if x == d {
+						return true
+					}
+				}
+				return false
+			}
+			var all []legRoute
+			for _, p1 := range w.pools {
+				if !has(p1, in) {
 					continue
 				}
+				if has(p1, out) && in != out {
+					all = append(all, legRoute{[]pinfo{p1}, []string{out}})
+				}
+				for _, mid := range p1.denoms {
+					if mid == in || mid == out {
+						continue
+					}
+					for _, p2 := range w.pools {
+						if p2.id != p1.id && has(p2, mid) && has(p2, out) {
+							all = append(all, legRoute{[]pinfo{p1, p2}, []string{mid, out}})
+						}
+					}
+				}
+			}
+			if len(all) < 2 {
+				rt.Skip("no split route")
+			}
+			for l := 0; l < nl; l++ {
+				lr := all[rapid.IntRange(0, len(all)-1).Draw(rt, "legRoute")]
+				lp, lo := lr.ps, lr.os
 				var rr []pmtypes.SwapAmountInRoute
 				for i := range lp {
 					rr = append(rr, pmtypes.SwapAmountInRoute{PoolId: lp[i].id, TokenOutDenom: lo[i]})
